@@ -520,11 +520,11 @@ def main(argv=None):
         f"known_excluded={sum(merged['known_hits'].values())} wall={wall:.1f}s"
         + (" BUDGET-EXHAUSTED(inconclusive for remainder)" if merged["budget_hit"] else "")
     )
+    for h in harness_errors[:5]:
+        print("HARNESS-ERROR: " + h)
     if violations:
         return 1
     if harness_errors:
-        for h in harness_errors[:5]:
-            print("HARNESS-ERROR: " + h)
         return 2
     return 0
 
